@@ -1311,7 +1311,6 @@ func c23Run(t *rapid.T, rec *ev.Recorder) {
 	knownAttrs := ev.Known(c23KnownAttrs)
 	knownOrder := ev.Known(c23KnownOrder)
 	knownStale := ev.Known(c23KnownStaleKnode)
-	knownForeign := ev.Known(c23KnownForeignQueued)
 	deletedNodes := map[string]bool{}
 	// hazards reports (and counts) the known-finding situations the next sync would run into.
 	hazards := func(full bool) bool {
@@ -1355,7 +1354,7 @@ func c23Run(t *rapid.T, rec *ev.Recorder) {
 	ops := []string{
 		"podAdd", "podAdd", "cniAdd", "cniAdd", "cniAdd", "podReport", "podDel", "podDel", "podDel", "podResched", "podFinish",
 		"cacheSync", "nodeAdd", "nodeAdd", "nodeDel", "calicoNodeDel", "tunnelAdd", "vmAlloc", "vmToggle", "vmiToggle", "oddAlloc",
-		"seqBump", "blockAdd", "blockUnaffine", "blockDel", "lateRelease", "vmAttrRewrite", "podRecreateForLeak", "podRecreateForLeak", "restartRace", "restartRace", "restartRace", "restartRace", "nodeReuse", "nodeReuseAfterFailedRelease", "nodeReuseAfterFailedRelease", "foreignNode", "foreignNode", "foreignAlloc", "foreignAlloc", "foreignAlloc",
+		"seqBump", "blockAdd", "blockUnaffine", "blockDel", "lateRelease", "vmAttrRewrite", "podRecreateForLeak", "podRecreateForLeak", "restartRace", "restartRace", "restartRace", "restartRace", "nodeReuse", "nodeReuseAfterFailedRelease", "nodeReuseAfterFailedRelease", "nodeReuseAfterFailedRelease", "foreignNode", "foreignNode", "foreignAlloc", "foreignAlloc", "foreignAlloc",
 		"deliver", "deliver", "deliver", "tick", "tick", "tick", "sync", "sync", "sync", "sync", "sync", "inSync",
 	}
 	nOps := rapid.IntRange(8, ev.Scale(45, 90)).Draw(t, "nOps")
@@ -1591,7 +1590,7 @@ func c23Run(t *rapid.T, rec *ev.Recorder) {
 				e.calicoNodeDel(cn)
 			}
 			e.log("nodeReuseAfterFailedRelease: nodeDel(%s)", n)
-			e.failMode = rapid.IntRange(1, 2).Draw(t, "failMode")
+			e.failMode = rapid.SampledFrom([]int{1, 2, 2}).Draw(t, "failMode")
 			if hazards(true) {
 				e.failMode = 0
 				continue
@@ -1609,12 +1608,64 @@ func c23Run(t *rapid.T, rec *ev.Recorder) {
 			if rapid.Bool().Draw(t, "deliverFirst") {
 				e.deliver(len(w.events))
 			}
+			// The owners of addresses that were written off while the node was gone may come back
+			// with it (the pods of a node that re-registers, still holding their addresses).
+			var revived []string
+			if rapid.IntRange(0, 3).Draw(t, "ownersComeBack") != 0 {
+				for _, cidr := range c23Keys(e.seen) {
+					for _, id := range c23Keys(e.seen[cidr].allocs) {
+						sa := e.seen[cidr].allocs[id]
+						name := sa.Attrs[ipam.AttributePod]
+						if sa.Attrs[ipam.AttributeNode] != cn || !c23IsPod(sa.Attrs) || c23IsVM(sa.Attrs) || !strings.HasPrefix(name, "p") {
+							continue
+						}
+						if wb, wo := w.findIP(sa.IP); wb == nil || wb.Allocs[wo].Handle != sa.Handle {
+							continue
+						}
+						if p, ok := w.podsLive[name]; ok {
+							if len(revived) > 0 && revived[len(revived)-1] == name && p.Node == n {
+								p.IPs = append(p.IPs, sa.IP) // second address of the same handle
+								e.cacheSetPod(name)
+							}
+							continue
+						}
+						if rapid.IntRange(0, 3).Draw(t, "ownerBack") == 0 {
+							continue
+						}
+						w.podGen++
+						w.podsLive[name] = &c23Pod{Node: n, Gen: w.podGen, IPs: []string{sa.IP}}
+						e.cacheSetPod(name)
+						revived = append(revived, name)
+					}
+				}
+				if len(revived) > 0 {
+					e.classes["written-off-on-node-gone-path-then-owner-back"] = true
+					e.log("  owners back: %v", revived)
+				}
+			}
 			full := rapid.Bool().Draw(t, "periodic")
 			if hazards(full) {
 				continue
 			}
 			e.sync(full)
 			check("after nodeReuseAfterFailedRelease sync 2")
+			if len(revived) > 0 && rapid.Bool().Draw(t, "forceDeleteLater") {
+				// Later one of those pods is force-deleted: gone from the API (informer caught up), no
+				// CNI DEL yet - the grace period is what protects its address now.
+				name := rapid.SampledFrom(revived).Draw(t, "forceDeleted")
+				if _, ok := w.podsLive[name]; ok {
+					e.advance(time.Duration(rapid.SampledFrom([]int{0, 1, 2}).Draw(t, "minutes")) * time.Minute)
+					delete(w.podsLive, name)
+					e.cacheSetPod(name)
+					e.classes["owner-back-then-force-deleted"] = true
+					e.log("  forceDelete(%s)", name)
+					full := rapid.Bool().Draw(t, "periodic")
+					if !hazards(full) {
+						e.sync(full)
+						check("after nodeReuseAfterFailedRelease sync 3")
+					}
+				}
+			}
 		case "calicoNodeDel":
 			if w.kdd {
 				continue
@@ -1658,10 +1709,6 @@ func c23Run(t *rapid.T, rec *ev.Recorder) {
 				// The node name comes back as a non-Kubernetes node while leaks confirmed during
 				// its absence are still queued (their release failed).
 				e.classes["non-kubernetes-node-returns-with-queued-leaks"] = true
-				if knownForeign {
-					rec.Excluded(c23KnownForeignQueued)
-					continue
-				}
 			}
 			via := rapid.IntRange(0, 3).Draw(t, "deliveredBySyncer") != 0
 			e.foreignNodeAdd(cn, via)
